@@ -293,7 +293,7 @@ def mutated(ver, max_edits=3):
     return s()
 
 
-OPS = ("ins", "del", "rep", "confusable", "encoded", "lengthen", "drop_field", "drop_mandatory", "dup_field", "dup_field_other_value", "swap_fields",
+OPS = ("ins", "del", "rep", "confusable", "encoded", "lengthen", "tree_constant", "drop_field", "drop_mandatory", "dup_field", "dup_field_other_value", "swap_fields",
        "transplant", "empty_field", "surgery", "case", "value_of_other_metric", "strip_value", "extra_colon")
 
 
@@ -326,6 +326,16 @@ def apply_op(draw, ver, s, op):
         return s[:i] + enc + s[i + 1:]
     if op == "lengthen":
         return lengthen(draw, ver, s)
+    if op == "tree_constant":
+        # a constant of the source tree as the string, around it, as a field, as a metric or as a value
+        c = draw(st.sampled_from(tree_constants()))
+        c = draw(st.sampled_from((c, c.lower(), c.upper())))
+        fs = s.split("/")
+        j = draw(st.integers(0, len(fs) - 1))
+        m, _, v = fs[j].partition(":")
+        return draw(st.sampled_from((c, s + c, c + s, s + "/" + c, c + "/" + s, s + " " + c, "/".join(fs[:j] + [c] + fs[j + 1:]),
+                                     "/".join(fs[:j] + [m + ":" + c] + fs[j + 1:]), "/".join(fs[:j] + [c + ":" + v] + fs[j + 1:]),
+                                     "/".join(fs[:j] + [c] + fs[j:]), "/".join(fs[:j] + [fs[j] + c] + fs[j + 1:]))))
     if op == "confusable":
         conf = confusables()
         idx = [i for i, ch in enumerate(s) if ch in conf]
@@ -437,6 +447,49 @@ def lengthened(ver):
         base = draw(valid(ver)) if draw(st.booleans()) else draw(mutated(ver, max_edits=2))[0]
         return lengthen(draw, ver, base)
     return s()
+
+
+_TREE_CONSTANTS = []
+
+
+def tree_constants():
+    """
+    short string constants that occur in the source of the tree under test (compiled, code objects walked): a generator HINT
+    like a fuzzing dictionary - a word or token that some code path compares its input with has to be written down
+    somewhere.  Never used by an oracle.  Deterministic (sorted).
+    """
+    if _TREE_CONSTANTS:
+        return _TREE_CONSTANTS
+    import os
+    from . import runner
+    found = set()
+
+    def walk(code):
+        for c in code.co_consts:
+            if isinstance(c, str):
+                if 1 <= len(c) <= 24 and "\n" not in c:
+                    found.add(c)
+                    for part in c.replace("{0}", " ").replace("%s", " ").split():
+                        if 1 <= len(part) <= 24:
+                            found.add(part)
+            elif isinstance(c, (tuple, frozenset)):
+                for x in c:
+                    if isinstance(x, str) and 1 <= len(x) <= 24 and "\n" not in x:
+                        found.add(x)
+            elif hasattr(c, "co_consts"):
+                walk(c)
+    d = os.path.join(runner.REPO, "cvss")
+    for name in sorted(os.listdir(d)):
+        if name.endswith(".py"):
+            try:
+                with open(os.path.join(d, name), encoding="utf-8") as f:
+                    walk(compile(f.read(), name, "exec"))
+            except (OSError, SyntaxError, ValueError):
+                pass
+    _TREE_CONSTANTS.extend(sorted(found))
+    if not _TREE_CONSTANTS:
+        _TREE_CONSTANTS.append("X")
+    return _TREE_CONSTANTS
 
 
 NAMED_ENTITIES = {":": ("&colon;",), "/": ("&sol;", "&#x2F;"), ".": ("&period;",), "&": ("&amp;",), "<": ("&lt;",), " ": ("&nbsp;", "+", "%20")}
